@@ -23,3 +23,37 @@ package strategy
 //@   ensures [C09] ramp-formula: result1 == nil && t >= 0 && iv > 0 ==> result == min(*params.MaxParallelPodCreation, (1 + t / iv) * fst(inc))
 //@   ensures [C09] never-above-max-parallel: result1 == nil ==> result <= *params.MaxParallelPodCreation
 //@   ensures error-iff-bad-configuration: result1 != nil <==> snd(inc) != nil || iv <= 0
+//@
+//@ func compareCurrentPodWithNewPod
+//@   pure
+//@   trusted
+//@   reads nothing
+//@ func manageUnscheduledPodNodes
+//@   modifies nothing
+//@   loop 1 invariant true
+//@ func cleanupPods
+//@   trusted
+//@   requires status != nil
+//@   modifies status.Conditions, elems(status.Conditions)
+//@ func deletePodLabel
+//@   trusted
+//@   modifies nothing
+//@ func addPodLabel
+//@   trusted
+//@   modifies nothing
+//@
+//@ func ManageDeployment
+//@   requires client != nil && daemonset != nil && params != nil && params.NewStatus != nil && params.Strategy != nil && params.Replicaset != nil
+//@   requires params.Strategy.RollingUpdate.SlowStartIntervalDuration != nil && params.Strategy.RollingUpdate.MaxParallelPodCreation != nil
+//@   requires params.Strategy.RollingUpdate.SlowStartAdditiveIncrease != nil
+//@   requires forall n *NodeItem :: n in params.PodByNodeName ==> n != nil && n.Node != nil
+//@   modifies params.NewStatus.Conditions, elems(params.NewStatus.Conditions), mapof(params.PodByNodeName)
+//@   ensures result != nil && fresh(result)
+//@   ensures [C08] paused-flag: result.IsPaused <==> eds.IsRollingUpdatePaused(daemonset.ObjectMeta.Annotations)
+//@   ensures [C08] frozen-flag: result.IsFrozen <==> eds.IsRolloutFrozen(daemonset.ObjectMeta.Annotations)
+//@   ensures [C08] paused-or-frozen-no-update-delete: result.IsPaused || result.IsFrozen ==> len(result.PodsToDelete) == 0
+//@   ensures [C08] frozen-no-create: result.IsFrozen ==> len(result.PodsToCreate) == 0
+//@   loop 1 invariant true
+//@   loop 1 modifies mapof(params.PodByNodeName)
+//@   loop 2 invariant true
+//@   loop 3 invariant true
